@@ -186,6 +186,22 @@ def run(chk):
             if is_dead(r):
                 chk.violation("a deeply nested or very long source exhausts the stack / aborts / hangs (%s build)" % prof,
                               dict(case=c[:300], label=lab, impl=r, profile=prof, ladder=lab))
+    # long flat chains whose program is then cloned with its context (the syntax tree is cloned and dropped recursively)
+    ccases, clabels = [], []
+    for n in [1000, 1024, 1025, 2000, 5000] + ([] if quick else [20000]):
+        for op, nm in [("+1", "add"), ("&&x", "and"), ("||x", "or"), ("==1", "eq"), ("*1", "mul")]:
+            src = "x" + op * n
+            ccases.append("history addp 0 %s %s ; bind 0 %s %s ; clonec 0 1 ; clonec 1 2 ; exec 2 0 %s ; exec 0 0 %s"
+                          % (hx("p"), hx(src), hx("x"), vi(1), hx("p"), hx("p")))
+            clabels.append("%s chain x %d, context cloned twice" % (nm, n))
+    for prof in ("debug", "release"):
+        cimpl = run_impl(ccases, prof, isolate=True, timeout=600)
+        for lab, c, r in zip(clabels, ccases, cimpl):
+            if is_dead(r):
+                chk.violation("cloning / dropping the context of a long flat operator chain exhausts the stack (%s build)" % prof,
+                              dict(case=c[:300], label=lab, impl=r, profile=prof))
+    chk.stream("flat operator chains of 1000..20000 operands compiled, their context cloned twice, executed and dropped",
+               2 * len(ccases), len(ccases), exhaustive=False)
     lmodel = run_model([c for c, lab in zip(lcases, llabels) if int(lab.split(" x ")[1]) <= 1000])
     for (c, lab), r, m in zip([(c, lab) for c, lab in zip(lcases, llabels) if int(lab.split(" x ")[1]) <= 1000], [r for r, lab in zip(limpl, llabels) if int(lab.split(" x ")[1]) <= 1000], lmodel):
         if not is_dead(r) and m != "UNMOD" and m != r:
